@@ -45,6 +45,9 @@ class OpsMixin:
         """Fit v into static type ty (None -> Optional none, T -> Optional some, py constants -> terms)."""
         if v.ty == ty or ty.kind in ("py", "any"):
             return v
+        hook = self.coerce_hooks.get((v.ty.kind if not v.is_py else type(v.t).__name__, ty.name or ty.kind))
+        if hook is not None:
+            return hook(self, v, ty)
         if v.is_py:
             lv = self.lift(v.t, ty)
             if lv.is_py:
